@@ -239,7 +239,8 @@ def rule_option_scope(ctx, cd):
         R,
         "the endianness option influences type templates only by selecting between an aligned fast path and the generic "
         "support call: template paths that differ only in LITTLE_ENDIAN have the same cursor advances and the same "
-        "representation-error exits; the option never guards a capacity or representation check",
+        "representation-error exits; the option never guards a capacity or representation check; the expression handed to the "
+        "assert() macro (emitted only when assertion generation is on) has no effect of its own",
     )
     n = 0
     for lang in ("c", "cpp"):
@@ -266,6 +267,29 @@ def rule_option_scope(ctx, cd):
                     ctx.ob(R, t.rel, f"{lang}: {mname} [{label}]: LITTLE_ENDIAN arms agree on advances and error exits", ok,
                            "" if ok else f"arms differ: {sorted(distinct)}: bytes or decoded values depend on the endianness option")
     ctx.floor(R, n, 3)
+    # assertion generation: `assert(<C expression>)` renders to NUNAVUT_ASSERT(...) with the option on and to nothing with it off, so
+    # the asserted expression must have no effect of its own - no call of a codec / support routine, no assignment, no ++ / --.
+    # (Observers such as size(), offset(), is_x(), sizeof are not effects.)
+    N = cd.N
+    EFFECT_CALL = re.compile(r"(\w*_(?:de)?serialize_|\b(?:de)?serialize|\w*_initialize_|nunavut(?:Set|Get|Copy)\w*|"
+                             r"(?:\.|->)(?:set|add|push|emplace|clear|resize|reserve|assign|copyTo|padAndMove|subspan|destroy|swap)\w*)\s*\(")
+    EFFECT_OP = re.compile(r"(?<![=!<>])=(?!=)|\+\+|--|[-+*/%&|^]=|<<=|>>=")
+    n_as = 0
+    for t in cd.ts.templates:
+        if t.lang not in ("c", "cpp"):
+            continue
+        for node in t.ast.find_all(N.Call):
+            if not (isinstance(node.node, N.Name) and node.node.name == "assert" and node.args):
+                continue
+            n_as += 1
+            lits = [c.value for c in [node.args[0]] + list(node.args[0].find_all(N.Const)) if isinstance(c, N.Const) and isinstance(c.value, str)]
+            text = " ".join(lits)
+            hit = EFFECT_CALL.search(text) or EFFECT_OP.search(text)
+            ok = hit is None
+            ctx.ob(R, t.rel, f"{t.lang}: asserted expression `{xs(node.args[0])[:70]}` has no effect of its own", ok,
+                   "" if ok else f"`{hit.group(0)}` is evaluated only when assertion generation is on: with the option off the statement vanishes together with "
+                   "its effect, so the generated code behaves differently for the two settings", getattr(node, "lineno", None))
+    ctx.floor(R + ":asserts", n_as, 60)
     # LITTLE_ENDIAN is derived from the option in exactly one way
     for lang, f in (("c", "definitions.j2"), ("cpp", "_definitions.j2")):
         t = cd.ts.get(lang, f)
